@@ -386,6 +386,28 @@ PNotMap(b, i, rt, acc) ==
 ParseNot(b, rt) == LET r == PNot(b, 1, rt) IN IF r.ok /\ r.i = Len(b) + 1 THEN r.v ELSE Err
 DenotesNot(b, rt) == Canon(ParseNot(b, rt))
 
+\* ====================================================== content sniffing (llsd.parse)
+\* The dispatcher used where the content type cannot be trusted: white space IN FRONT of the document is
+\* skipped, then the leading bytes pick the format: a binary header -> binary, "<" -> XML, anything else ->
+\* notation.  Nothing is removed behind the document: binary LLSD is raw bytes and may END in a byte that
+\* happens to be ASCII white space (i 00 00 00 0A, a string ending in a blank, ...).
+\* `both` names the variant that also trims the end (kept so that TLC shows the law bites).
+RECURSIVE LStripFrom(_, _)
+LStripFrom(b, i) == IF i <= Len(b) /\ IsWS(b[i]) THEN LStripFrom(b, i + 1) ELSE i
+RECURSIVE RStripTo(_, _)
+RStripTo(b, j) == IF j >= 1 /\ IsWS(b[j]) THEN RStripTo(b, j - 1) ELSE j
+Trimmed(doc, both) == LET i == LStripFrom(doc, 1)
+                          j == IF both THEN RStripTo(doc, Len(doc)) ELSE Len(doc) IN
+                      IF j < i THEN <<>> ELSE SubSeq(doc, i, j)
+SniffKind(d) == IF IsPrefix(HdrPy, d) \/ IsPrefix(HdrCpp, d) THEN "bin"
+                ELSE IF Len(d) > 0 /\ d[1] = 60 THEN "xml" ELSE "not"
+Sniff(doc) == SniffKind(Trimmed(doc, FALSE))
+\* the value a sniffed document denotes (XML is not modelled: a marker)
+SniffParseWith(doc, dt, rt, both) ==
+    LET d == Trimmed(doc, both) k == SniffKind(d) IN
+    IF k = "bin" THEN DenotesBin(d, dt) ELSE IF k = "not" THEN DenotesNot(d, rt) ELSE V("xml", <<>>)
+SniffParse(doc, dt, rt) == SniffParseWith(doc, dt, rt, FALSE)
+
 \* "no string value ever puts a raw newline into notation output"
 NoRawNewline(b) == \A k \in 1..Len(b) : b[k] # 10
 =============================================================================
